@@ -10,6 +10,11 @@ type case = {
   what : string; args : int list;
 }
 
+(* further overloads, all of them element-wise copies: view = rvalue view, and the array_ref overloads
+   (same type & / &&, converting from a pointer-to-const reference & / &&, from an rvalue reference, from an owning array) *)
+let aref_kinds = [ "aref_lv"; "aref_rv"; "aref_conv_lv"; "aref_conv_rv"; "aref_from_rv"; "aref_from_array" ]
+let copy_kinds2 = [ "assign_from_rv"; "assign_rv_rv" ] @ aref_kinds
+
 let run_ops_exn (ops : op list) (v : view) : view option = run_ops ops v
 
 let shift_base (v : view) (g : int) : view = { lay = v.lay; base = z (i v.base + g) }
@@ -27,7 +32,7 @@ let run_case (id : string) (c : case) (obs : Buffer.t) : bool =
   match run_ops c.dops (root_view (zr c.dexts)), (if c.sexts = [] then Some (root_view []) else run_ops c.sops (root_view (zr c.sexts))) with
   | Some d0, Some s0 ->
       let d = shift_base d0 guard and s = shift_base s0 (2 * guard + na) in
-      let need_src = List.mem c.what [ "assign"; "assign_const"; "assign_elems"; "assign_rv"; "assign_elems_named"; "swap"; "move" ] in
+      let need_src = List.mem c.what ([ "assign"; "assign_const"; "assign_elems"; "assign_rv"; "assign_elems_named"; "swap"; "move" ] @ copy_kinds2) in
       let dn = i (er_size d) in
       let ok =
         if need_src then x_sizes_eq d s && List.length d.lay = List.length s.lay
@@ -42,6 +47,7 @@ let run_case (id : string) (c : case) (obs : Buffer.t) : bool =
         let m' =
           match c.what with
           | "assign" | "assign_const" | "assign_elems" | "assign_rv" | "assign_elems_named" -> assign_view (fun x -> x) d s m0
+          | w when List.mem w copy_kinds2 -> assign_view (fun x -> x) d s m0
           | "move" -> move_view d s m0
           | "swap" -> swap_views d s m0
           | "fill" -> fill_view (z (List.hd c.args)) d m0
@@ -72,9 +78,12 @@ let case_text (id : string) (c : case) : string =
 (* a view program reaching sizes `want` from a padded / rotated / strided root: the source side *)
 let gen_src ?(firsts = []) (want : int list) : (int * int) list * op list =
   let d = List.length want in
+  (* compact: the root is exactly the (rotated) logical array -- gap-free storage in a permuted order, the case a
+     "contiguous block" fast path must not mistake for canonical order *)
+  let compact = chance 15 in
   let per = List.map (fun n ->
-      let stride = if n > 0 && chance 30 then 2 else 1 in
-      let pad_lo = rnd_range 0 2 and pad_hi = rnd_range 0 2 in
+      let stride = if n > 0 && not compact && chance 30 then 2 else 1 in
+      let pad_lo = if compact then 0 else rnd_range 0 2 and pad_hi = if compact then 0 else rnd_range 0 2 in
       (n, stride, pad_lo, n * stride + pad_lo + pad_hi)) want in
   let r = if d > 1 then rnd d else 0 in
   let padded = List.map (fun (_, _, _, p) -> (0, p)) per in
@@ -102,10 +111,12 @@ let gen_case (vc : Views.cfg) : case * string list =
   let dexts, dops, dv, kinds = dst 20 in
   let want = il (l_sizes dv.lay) in
   let dn = i (er_size dv) in
-  let what = weighted [ (4, "assign"); (2, "assign_const"); (2, "assign_rv"); (3, "assign_elems"); (2, "assign_elems_named"); (3, "swap"); (3, "move"); (3, "fill"); (3, "vals") ] in
+  let what = weighted [ (4, "assign"); (2, "assign_const"); (2, "assign_rv"); (2, "assign_from_rv"); (1, "assign_rv_rv"); (3, "aref"); (3, "assign_elems"); (2, "assign_elems_named"); (3, "swap"); (3, "move"); (3, "fill"); (3, "vals") ] in
   let what = if what = "vals" && (List.length want > 2 || dn > 60) then "assign" else what in
+  let what = if what = "aref" then (if nel_of dexts > 0 then pick aref_kinds else "assign") else what in
   let c =
     match what with
+    | w when List.mem w aref_kinds -> { dexts; dops = []; sexts = dexts; sops = []; what; args = [] }
     | "fill" -> { dexts; dops; sexts = []; sops = []; what; args = [ rnd_range (-9) 9 ] }
     | "vals" -> { dexts; dops; sexts = []; sops = []; what; args = List.init dn (fun k -> 5000 + k * 7 mod 101) }
     | _ -> let sexts, sops = gen_src ~firsts:(il (firsts_of dv)) want in { dexts; dops; sexts; sops; what; args = [] } in
